@@ -1,64 +1,988 @@
-//! probe
-use std::collections::HashSet;
+//! C05 correspondence: WIT declarations in WAC mean what WIT means.
+//!
+//! usage: c05 <quick|thorough> <seed> <cases_out> <impl_out> [replay_cases_in]
+//!        c05 show <file.wac> [<file.wit>]        (diagnostics: prints both encodings and all verdicts)
+//!
+//! One neutral description of a package (`Pkg`: interfaces with all value-type constructors, resources with
+//! constructors/methods/statics, own/borrow, `use` chains and diamonds with renames, worlds with named / inline /
+//! path imports and exports and `include ... with`) is rendered twice: as WIT text and as a WAC document.
+//!
+//! case line (tab separated):  kind  id  wac-source  wit-source  meta
+//!   kind = pkg (both renderings, reference comparison) | neg (WAC only: error classes / panics)
+//!   sources: comma separated code points ("-" = empty)
+//!   meta: `;`-separated records  W|<world>|<explicit import names ,>|<explicit export names ,>|<strict 0/1>
+//!         and F|<feature> (shape features used for the signatures of known findings)
+//! impl line (tab separated):
+//!   1. observation of the real resolver on the WAC text, in the format of the extracted model
+//!      (`OK name=tree | ... ## name:id=.. uses=[..] | ...`, `ERR <Class>`, `PANIC`, `PARSE-ERR`)
+//!   2. reference verdict (wac-types SubtypeChecker on both binaries loaded into ONE Types collection):
+//!      `REF-OK <interfaces> <worlds>` | `REF-DIFF <where>: <what>` | `REF-SKIP <why>` | `-`
+//!   3. validator verdict (both binaries nested in one component, wasmparser's own component subtyping):
+//!      `WP-OK <n>` | `WP-DIFF <where>: <what>` | `WP-SKIP <why>` | `-`
+use std::collections::{BTreeMap, BTreeSet, HashSet};
+use std::io::Write;
+use std::panic::{catch_unwind, AssertUnwindSafe};
 use wac_types::*;
+use wacv::Rng;
+
+// ------------------------------------------------------------------------------------------------ neutral description
+#[derive(Clone, Debug)]
+enum Ty { P(u8), List(Box<Ty>), Opt(Box<Ty>), Res(Option<Box<Ty>>, Option<Box<Ty>>), Tuple(Vec<Ty>), Name(String), Borrow(String) }
+#[derive(Clone, Debug)]
+struct Func { params: Vec<(String, Ty)>, result: Option<Ty> }
+#[derive(Clone, Debug)]
+enum Member { Ctor(Vec<(String, Ty)>), Method(String, Func), Static(String, Func) }
+#[derive(Clone, Debug)]
+enum Decl {
+    Record(String, Vec<(String, Ty)>), Variant(String, Vec<(String, Option<Ty>)>), Enum(String, Vec<String>),
+    Flags(String, Vec<String>), Alias(String, Ty), Resource(String, Vec<Member>),
+}
+#[derive(Clone, Debug)]
+enum IItem { Use(String, Vec<(String, Option<String>)>), Decl(Decl), Func(String, Func) }
+#[derive(Clone, Debug)]
+struct Iface { name: String, items: Vec<IItem> }
+#[derive(Clone, Debug)]
+enum WPath { Func(String, Func), Inline(String, Vec<IItem>), Iface(String) }
+#[derive(Clone, Debug)]
+enum WItem { Use(String, Vec<(String, Option<String>)>), Decl(Decl), Import(WPath), Export(WPath), Include(String, Vec<(String, String)>) }
+#[derive(Clone, Debug)]
+struct World { name: String, items: Vec<WItem> }
+#[derive(Clone, Debug)]
+enum Top { I(Iface), W(World) }
+#[derive(Clone, Debug)]
+struct Pkg { name: String, version: Option<String>, tops: Vec<Top> }
+
+const PRIMS: [&str; 13] = ["u8", "s8", "u16", "s16", "u32", "s32", "u64", "s64", "f32", "f64", "char", "bool", "string"];
+
+// ------------------------------------------------------------------------------------------------ rendering
+#[derive(Clone, Copy, PartialEq)]
+enum Lang { Wit, Wac }
+
+fn r_ty(t: &Ty) -> String {
+    match t {
+        Ty::P(i) => PRIMS[*i as usize].to_string(),
+        Ty::List(x) => format!("list<{}>", r_ty(x)),
+        Ty::Opt(x) => format!("option<{}>", r_ty(x)),
+        Ty::Res(None, None) => "result".to_string(),
+        Ty::Res(Some(o), None) => format!("result<{}>", r_ty(o)),
+        Ty::Res(None, Some(e)) => format!("result<_, {}>", r_ty(e)),
+        Ty::Res(Some(o), Some(e)) => format!("result<{}, {}>", r_ty(o), r_ty(e)),
+        Ty::Tuple(v) => format!("tuple<{}>", v.iter().map(r_ty).collect::<Vec<_>>().join(", ")),
+        Ty::Name(n) => n.clone(),
+        Ty::Borrow(n) => format!("borrow<{n}>"),
+    }
+}
+fn r_params(p: &[(String, Ty)]) -> String { p.iter().map(|(n, t)| format!("{n}: {}", r_ty(t))).collect::<Vec<_>>().join(", ") }
+fn r_func(f: &Func) -> String {
+    format!("func({}){}", r_params(&f.params), match &f.result { Some(t) => format!(" -> {}", r_ty(t)), None => String::new() })
+}
+fn r_decl(d: &Decl, ind: &str, o: &mut String) {
+    match d {
+        Decl::Record(n, fs) => o.push_str(&format!("{ind}record {n} {{ {} }}\n", fs.iter().map(|(f, t)| format!("{f}: {}", r_ty(t))).collect::<Vec<_>>().join(", "))),
+        Decl::Variant(n, cs) => o.push_str(&format!("{ind}variant {n} {{ {} }}\n", cs.iter().map(|(c, t)| match t { Some(t) => format!("{c}({})", r_ty(t)), None => c.clone() }).collect::<Vec<_>>().join(", "))),
+        Decl::Enum(n, cs) => o.push_str(&format!("{ind}enum {n} {{ {} }}\n", cs.join(", "))),
+        Decl::Flags(n, cs) => o.push_str(&format!("{ind}flags {n} {{ {} }}\n", cs.join(", "))),
+        Decl::Alias(n, t) => o.push_str(&format!("{ind}type {n} = {};\n", r_ty(t))),
+        Decl::Resource(n, ms) => {
+            if ms.is_empty() { o.push_str(&format!("{ind}resource {n};\n")); return; }
+            o.push_str(&format!("{ind}resource {n} {{\n"));
+            for m in ms {
+                match m {
+                    Member::Ctor(p) => o.push_str(&format!("{ind}  constructor({});\n", r_params(p))),
+                    Member::Method(m, f) => o.push_str(&format!("{ind}  {m}: {};\n", r_func(f))),
+                    Member::Static(m, f) => o.push_str(&format!("{ind}  {m}: static {};\n", r_func(f))),
+                }
+            }
+            o.push_str(&format!("{ind}}}\n"));
+        }
+    }
+}
+fn r_use(from: &str, items: &[(String, Option<String>)], ind: &str, o: &mut String) {
+    // a leading '@' marks a reference by full package path; the marker is replaced by `render`
+    o.push_str(&format!("{ind}use {from}.{{{}}};\n", items.iter().map(|(a, b)| match b { Some(b) => format!("{a} as {b}"), None => a.clone() }).collect::<Vec<_>>().join(", ")));
+}
+fn r_iitems(items: &[IItem], ind: &str, o: &mut String) {
+    for it in items {
+        match it {
+            IItem::Use(f, l) => r_use(f, l, ind, o),
+            IItem::Decl(d) => r_decl(d, ind, o),
+            IItem::Func(n, f) => o.push_str(&format!("{ind}{n}: {};\n", r_func(f))),
+        }
+    }
+}
+fn r_wpath(kw: &str, p: &WPath, lang: Lang, o: &mut String) {
+    match p {
+        WPath::Func(n, f) => o.push_str(&format!("  {kw} {n}: {};\n", r_func(f))),
+        WPath::Inline(n, items) => {
+            o.push_str(&format!("  {kw} {n}: interface {{\n"));
+            r_iitems(items, "    ", o);
+            // WIT: no semicolon after the closing brace; WAC: required
+            o.push_str(if lang == Lang::Wit { "  }\n" } else { "  };\n" });
+        }
+        WPath::Iface(n) => o.push_str(&format!("  {kw} {n};\n")),
+    }
+}
+fn render(p: &Pkg, lang: Lang) -> String {
+    let mut o = String::new();
+    o.push_str(&format!("package {}{};\n\n", p.name, match &p.version { Some(v) => format!("@{v}"), None => String::new() }));
+    for t in &p.tops {
+        match t {
+            Top::I(i) => { o.push_str(&format!("interface {} {{\n", i.name)); r_iitems(&i.items, "  ", &mut o); o.push_str("}\n\n"); }
+            Top::W(w) => {
+                o.push_str(&format!("world {} {{\n", w.name));
+                for it in &w.items {
+                    match it {
+                        WItem::Use(f, l) => r_use(f, l, "  ", &mut o),
+                        WItem::Decl(d) => r_decl(d, "  ", &mut o),
+                        WItem::Import(p) => r_wpath("import", p, lang, &mut o),
+                        WItem::Export(p) => r_wpath("export", p, lang, &mut o),
+                        WItem::Include(w, ren) => {
+                            if ren.is_empty() { o.push_str(&format!("  include {w};\n")); }
+                            else {
+                                let l = ren.iter().map(|(a, b)| format!("{a} as {b}")).collect::<Vec<_>>().join(", ");
+                                // WIT: `include w with { .. }` has no semicolon; WAC requires one
+                                o.push_str(&format!("  include {w} with {{ {l} }}{}\n", if lang == Lang::Wit { "" } else { ";" }));
+                            }
+                        }
+                    }
+                }
+                o.push_str("}\n\n");
+            }
+        }
+    }
+    // `use @iface.{..}` -> `use ns:pkg/iface@version.{..}`
+    let ver = match &p.version { Some(v) => format!("@{v}"), None => String::new() };
+    let mut out = String::new();
+    for line in o.lines() {
+        if let Some(pos) = line.find("use @") {
+            let rest = &line[pos + 5..];
+            let (iface, tail) = rest.split_once('.').unwrap();
+            // the reference toolchain rejects a path into the package itself ("package depends on itself"): WIT gets the plain name
+            if lang == Lang::Wit { out.push_str(&format!("{}use {}.{}\n", &line[..pos], iface, tail)); }
+            else { out.push_str(&format!("{}use {}/{}{}.{}\n", &line[..pos], p.name, iface, ver, tail)); }
+        } else { out.push_str(line); out.push('\n'); }
+    }
+    out
+}
+
+// ------------------------------------------------------------------------------------------------ generation
+#[derive(Clone, Copy, PartialEq, Debug)]
+enum Cat { Val, Res }
+/// what a body can see / what an interface exports: (name, category)
+type Names = Vec<(String, Cat)>;
+
+struct IfaceInfo { name: String, types: Names, has_funcs: bool, deps: BTreeSet<String> }
+struct WorldInfo {
+    name: String,
+    imports: Vec<String>, exports: Vec<String>,       // explicit names (plain names and interface ids), after includes
+    iface_refs: BTreeSet<String>,                      // interfaces referenced explicitly or through use (for implicit imports)
+    explicit_iface_imports: BTreeSet<String>,
+    export_ifaces: BTreeSet<String>, export_deps: BTreeSet<String>,
+    has_use: bool, has_use_res: bool,
+}
+
+struct Gen<'a> { r: &'a mut Rng, n: u32, feats: BTreeSet<String> }
+
+impl<'a> Gen<'a> {
+    fn fresh(&mut self, p: &str) -> String { self.n += 1; format!("{p}{}", self.n) }
+    fn small(&mut self, max: u64) -> usize { self.r.below(max + 1) as usize }
+
+    /// a value type; `borrow_ok`: directly in parameter position
+    fn ty(&mut self, sc: &Names, depth: u32, borrow_ok: bool) -> Ty {
+        let vals: Vec<&(String, Cat)> = sc.iter().collect();
+        let c = self.r.below(if depth == 0 { 10 } else { 16 });
+        match c {
+            0..=3 => Ty::P(self.r.below(13) as u8),
+            4..=8 if !vals.is_empty() => {
+                let (n, cat) = (*self.r.pick(&vals)).clone();
+                if cat == Cat::Res && borrow_ok && self.r.chance(1, 2) { Ty::Borrow(n) } else { Ty::Name(n) }
+            }
+            4..=9 => Ty::P(self.r.below(13) as u8),
+            10 => Ty::List(Box::new(self.ty(sc, depth - 1, borrow_ok))),
+            11 => Ty::Opt(Box::new(self.ty(sc, depth - 1, borrow_ok))),
+            12 => {
+                let o = if self.r.chance(2, 3) { Some(Box::new(self.ty(sc, depth - 1, borrow_ok))) } else { None };
+                let e = if self.r.chance(1, 2) { Some(Box::new(self.ty(sc, depth - 1, borrow_ok))) } else { None };
+                Ty::Res(o, e)
+            }
+            13 | 14 => { let n = 1 + self.small(2); Ty::Tuple((0..n).map(|_| self.ty(sc, depth - 1, borrow_ok)).collect()) }
+            _ => Ty::P(12),
+        }
+    }
+    fn func(&mut self, sc: &Names) -> Func {
+        let np = self.small(3);
+        let params = (0..np).map(|i| (format!("p{i}"), self.ty(sc, 2, true))).collect();
+        let result = if self.r.chance(3, 5) { Some(self.ty(sc, 2, false)) } else { None };
+        Func { params, result }
+    }
+    fn decl(&mut self, sc: &Names, taken: &mut BTreeSet<String>, allow_res: bool) -> (Decl, Cat) {
+        let name = self.type_name(taken);
+        let c = self.r.below(if allow_res { 8 } else { 6 });
+        match c {
+            0 => { let n = 1 + self.small(3); (Decl::Record(name, (0..n).map(|i| (format!("fld{i}"), self.ty(sc, 2, false))).collect()), Cat::Val) }
+            1 => {
+                let n = 1 + self.small(3);
+                (Decl::Variant(name, (0..n).map(|i| (format!("case{i}"), if self.r.chance(2, 3) { Some(self.ty(sc, 2, false)) } else { None })).collect()), Cat::Val)
+            }
+            2 => { let n = 1 + self.small(3); (Decl::Enum(name, (0..n).map(|i| format!("e{i}")).collect()), Cat::Val) }
+            3 => { let n = 1 + self.small(3); (Decl::Flags(name, (0..n).map(|i| format!("fl{i}")).collect()), Cat::Val) }
+            4 | 5 => {
+                // alias: of a structural type, or of a name (value or resource)
+                let t = self.ty(sc, 2, false);
+                let cat = match &t { Ty::Name(n) => sc.iter().find(|x| &x.0 == n).map(|x| x.1).unwrap_or(Cat::Val), _ => Cat::Val };
+                (Decl::Alias(name, t), cat)
+            }
+            _ => {
+                // resource: members see the resource itself
+                let mut sc2 = sc.clone(); sc2.push((name.clone(), Cat::Res));
+                let mut ms = Vec::new();
+                let mut used = BTreeSet::new();
+                if self.r.chance(1, 2) { let np = self.small(2); ms.push(Member::Ctor((0..np).map(|i| (format!("p{i}"), self.ty(&sc2, 1, true))).collect())); }
+                for _ in 0..self.small(3) {
+                    let m = format!("m{}", self.r.below(5));
+                    if !used.insert(m.clone()) { continue; }
+                    let f = if self.r.chance(1, 4) { Func { params: vec![], result: None } } else { self.func(&sc2) };
+                    if self.r.chance(1, 3) { ms.push(Member::Static(m, f)) } else { ms.push(Member::Method(m, f)) }
+                }
+                (Decl::Resource(name, ms), Cat::Res)
+            }
+        }
+    }
+    /// type names come from a small pool so that equal names occur in different interfaces
+    fn type_name(&mut self, taken: &mut BTreeSet<String>) -> String {
+        for _ in 0..8 {
+            let n = format!("{}{}", self.r.pick(&["t", "ty-a", "r", "rec-x", "my-type"]), self.r.below(4));
+            if taken.insert(n.clone()) { return n; }
+        }
+        let n = self.fresh("tz"); taken.insert(n.clone()); n
+    }
+
+    /// a `use` from one of the earlier interfaces: (from, items, bound names)
+    fn use_from(&mut self, ifaces: &[IfaceInfo], taken: &mut BTreeSet<String>) -> Option<(String, Vec<(String, Option<String>)>, Names)> {
+        let cands: Vec<&IfaceInfo> = ifaces.iter().filter(|i| !i.types.is_empty()).collect();
+        if cands.is_empty() { return None; }
+        let src = *self.r.pick(&cands);
+        let mut items = Vec::new(); let mut bound = Vec::new(); let mut seen = BTreeSet::new();
+        for _ in 0..1 + self.small(2) {
+            let (n, cat) = self.r.pick(&src.types).clone();
+            if !seen.insert(n.clone()) { continue; }
+            if taken.contains(&n) || self.r.chance(1, 3) {
+                let local = self.type_name(taken);
+                items.push((n, Some(local.clone()))); bound.push((local, cat));
+            } else {
+                taken.insert(n.clone()); items.push((n.clone(), None)); bound.push((n, cat));
+            }
+        }
+        if items.is_empty() { return None; }
+        let by_path = self.r.chance(1, 6);
+        if by_path { self.feats.insert("use-by-package-path".into()); }
+        Some((if by_path { format!("@{}", src.name) } else { src.name.clone() }, items, bound))
+    }
+
+    fn iitems(&mut self, ifaces: &[IfaceInfo], max_items: u64, allow_use: bool) -> (Vec<IItem>, Names, bool, BTreeSet<String>) {
+        let mut items = Vec::new(); let mut sc: Names = Vec::new(); let mut taken = BTreeSet::new();
+        let mut has_funcs = false; let mut deps = BTreeSet::new();
+        let n = 1 + self.small(max_items);
+        for _ in 0..n {
+            match self.r.below(10) {
+                0..=2 if allow_use => {
+                    if let Some((from, l, bound)) = self.use_from(ifaces, &mut taken) {
+                        deps.insert(from.trim_start_matches('@').to_string()); sc.extend(bound); items.push(IItem::Use(from, l));
+                    }
+                }
+                0..=6 => {
+                    let (d, cat) = self.decl(&sc, &mut taken, true);
+                    if let Decl::Resource(_, ms) = &d { if !ms.is_empty() { has_funcs = true; } }
+                    let name = match &d { Decl::Record(n, _) | Decl::Variant(n, _) | Decl::Enum(n, _) | Decl::Flags(n, _) | Decl::Alias(n, _) | Decl::Resource(n, _) => n.clone() };
+                    sc.push((name, cat)); items.push(IItem::Decl(d));
+                }
+                _ => { let f = self.func(&sc); let n = self.fresh("f"); items.push(IItem::Func(n, f)); has_funcs = true; }
+            }
+        }
+        (items, sc, has_funcs, deps)
+    }
+
+    fn pkg(&mut self, max_if: u64, max_w: u64) -> (Pkg, String) {
+        let name = format!("{}:{}", self.r.pick(&["x", "foo", "my-ns"]), self.r.pick(&["y", "bar", "pk-g"]));
+        let version = match self.r.below(4) { 0 => None, 1 => Some("1.2.0".to_string()), 2 => Some("0.3.1".to_string()), _ => Some("2.0.0-rc.1".to_string()) };
+        let id_of = |n: &str| format!("{name}/{n}{}", match &version { Some(v) => format!("@{v}"), None => String::new() });
+        let n_if = 1 + self.small(max_if - 1); let n_w = self.small(max_w);
+        let mut ifaces: Vec<IfaceInfo> = Vec::new(); let mut worlds: Vec<WorldInfo> = Vec::new();
+        let mut tops = Vec::new(); let mut metas = Vec::new();
+        let (mut di, mut dw) = (0, 0);
+        while di < n_if || dw < n_w {
+            let do_iface = dw >= n_w || (di < n_if && (ifaces.is_empty() || self.r.chance(2, 3)));
+            if do_iface {
+                di += 1;
+                let iname = format!("{}{}", self.r.pick(&["ia", "ib", "api-x"]), di);
+                let types_only = self.r.chance(1, 4);
+                let (mut items, sc, mut has_funcs, deps) = self.iitems(&ifaces, 5, true);
+                if types_only {
+                    items.retain(|i| !matches!(i, IItem::Func(..)));
+                    for i in items.iter_mut() { if let IItem::Decl(Decl::Resource(_, ms)) = i { ms.clear(); } }
+                    has_funcs = false;
+                }
+                if items.is_empty() { items.push(IItem::Decl(Decl::Enum("e-only".into(), vec!["a".into()]))); }
+                let types: Names = sc;
+                let types = if types_only || true { types } else { types };
+                // a types-only pass may have removed nothing that `types` depends on (functions bind no names)
+                let mut tys: Names = Vec::new();
+                for it in &items {
+                    match it {
+                        IItem::Use(_, l) => for (a, b) in l { let n = b.clone().unwrap_or(a.clone()); if let Some(x) = types.iter().find(|x| x.0 == n) { tys.push(x.clone()); } },
+                        IItem::Decl(d) => { let n = match d { Decl::Record(n, _) | Decl::Variant(n, _) | Decl::Enum(n, _) | Decl::Flags(n, _) | Decl::Alias(n, _) | Decl::Resource(n, _) => n }; if let Some(x) = types.iter().find(|x| &x.0 == n) { tys.push(x.clone()); } else { tys.push((n.clone(), Cat::Val)); } }
+                        IItem::Func(..) => {}
+                    }
+                }
+                ifaces.push(IfaceInfo { name: iname.clone(), types: tys, has_funcs, deps });
+                tops.push(Top::I(Iface { name: iname, items }));
+            } else {
+                dw += 1;
+                let wname = format!("{}{}", self.r.pick(&["wa", "wb", "host-w"]), dw);
+                let mut items = Vec::new(); let mut sc: Names = Vec::new(); let mut taken = BTreeSet::new();
+                let mut imps: Vec<String> = Vec::new(); let mut exps: Vec<String> = Vec::new();
+                let mut refs = BTreeSet::new(); let mut expl_if_imports = BTreeSet::new();
+                let (mut has_use, mut has_use_res) = (false, false);
+                let mut exp_ifaces: BTreeSet<String> = BTreeSet::new(); let mut exp_deps: BTreeSet<String> = BTreeSet::new();
+                let n = 1 + self.small(5);
+                for _ in 0..n {
+                    match self.r.below(12) {
+                        0 | 1 => {
+                            if let Some((from, l, bound)) = self.use_from(&ifaces, &mut taken) {
+                                has_use = true; if bound.iter().any(|b| b.1 == Cat::Res) { has_use_res = true; }
+                                refs.insert(from.trim_start_matches('@').to_string());
+                                for b in &bound { imps.push(b.0.clone()); }
+                                sc.extend(bound); items.push(WItem::Use(from, l));
+                            }
+                        }
+                        2 => {
+                            let ar = self.r.chance(1, 3); let (d, cat) = self.decl(&sc, &mut taken, ar);
+                            let name = match &d { Decl::Record(n, _) | Decl::Variant(n, _) | Decl::Enum(n, _) | Decl::Flags(n, _) | Decl::Alias(n, _) | Decl::Resource(n, _) => n.clone() };
+                            imps.push(name.clone());
+                            if let Decl::Resource(rn, ms) = &d {
+                                for m in ms { imps.push(match m { Member::Ctor(_) => format!("[constructor]{rn}"), Member::Method(m, _) => format!("[method]{rn}.{m}"), Member::Static(m, _) => format!("[static]{rn}.{m}") }); }
+                                self.feats.insert("world-resource".into());
+                            }
+                            sc.push((name, cat)); items.push(WItem::Decl(d));
+                        }
+                        3 | 4 | 5 | 6 => {
+                            let imp = self.r.chance(1, 2);
+                            let p = if self.r.chance(2, 3) { let n = self.fresh("wf"); WPath::Func(n, self.func(&sc)) }
+                                    else { let n = self.fresh("inl"); let (it, _, _, deps) = self.iitems(&ifaces, 3, true); if !imp { exp_deps.extend(deps.iter().cloned()); } refs.extend(deps); WPath::Inline(n, it) };
+                            let n = match &p { WPath::Func(n, _) | WPath::Inline(n, _) => n.clone(), _ => unreachable!() };
+                            if imp { imps.push(n); items.push(WItem::Import(p)); } else { exps.push(n); items.push(WItem::Export(p)); }
+                        }
+                        7 | 8 | 9 if !ifaces.is_empty() => {
+                            let i = self.r.pick(&ifaces); let id = id_of(&i.name);
+                            let imp = self.r.chance(1, 2);
+                            let side = if imp { &mut imps } else { &mut exps };
+                            if side.contains(&id) { continue; }
+                            side.push(id);
+                            refs.insert(i.name.clone());
+                            if imp { expl_if_imports.insert(i.name.clone()); items.push(WItem::Import(WPath::Iface(i.name.clone()))); }
+                            else { exp_ifaces.insert(i.name.clone()); exp_deps.extend(i.deps.iter().cloned()); items.push(WItem::Export(WPath::Iface(i.name.clone()))); }
+                        }
+                        _ if !worlds.is_empty() => {
+                            // include an earlier world; rename some plain names; never create a conflict
+                            let w = self.r.pick(&worlds);
+                            if items.iter().any(|i| matches!(i, WItem::Include(n, _) if n == &w.name)) { continue; }
+                            let mut ren: Vec<(String, String)> = Vec::new();
+                            let plain: BTreeSet<String> = w.imports.iter().chain(w.exports.iter()).filter(|n| !n.contains(':') && !n.contains('[')).cloned().collect();
+                            let mut ok = true;
+                            let mut new_i = Vec::new(); let mut new_e = Vec::new();
+                            for n in &plain {
+                                let clash = (w.imports.contains(n) && imps.contains(n)) || (w.exports.contains(n) && exps.contains(n)) || taken.contains(n);
+                                if clash || self.r.chance(1, 4) { ren.push((n.clone(), self.fresh("rn"))); }
+                            }
+                            let map = |n: &String| ren.iter().find(|r| &r.0 == n).map(|r| r.1.clone()).unwrap_or(n.clone());
+                            for n in &w.imports { let m = map(n); if n.contains('[') && imps.contains(&m) { ok = false; } if !imps.contains(&m) { new_i.push(m); } }
+                            for n in &w.exports { let m = map(n); if !exps.contains(&m) { new_e.push(m); } }
+                            if !ok { continue; }
+                            if w.imports.iter().any(|n| !n.contains(':') && w.exports.contains(n)) && !ren.is_empty() { self.feats.insert("include-with-both-sides".into()); }
+                            if w.has_use { self.feats.insert("include-of-use".into()); }
+                            if w.has_use_res { self.feats.insert("include-of-use-res".into()); }
+                            for n in new_i.iter().chain(new_e.iter()) { if !n.contains(':') { taken.insert(n.clone()); } }
+                            imps.extend(new_i); exps.extend(new_e);
+                            refs.extend(w.iface_refs.iter().cloned());
+                            expl_if_imports.extend(w.explicit_iface_imports.iter().cloned());
+                            exp_ifaces.extend(w.export_ifaces.iter().cloned()); exp_deps.extend(w.export_deps.iter().cloned());
+                            has_use |= w.has_use; has_use_res |= w.has_use_res;
+                            items.push(WItem::Include(w.name.clone(), ren));
+                        }
+                        _ => {}
+                    }
+                }
+                if items.is_empty() { let n = self.fresh("wf"); exps.push(n.clone()); items.push(WItem::Export(WPath::Func(n, Func { params: vec![], result: None }))); }
+                // features for known-finding signatures
+                for it in &items { if let WItem::Use(from, _) = it { let from = from.trim_start_matches('@'); if items.iter().any(|j| matches!(j, WItem::Import(WPath::Iface(n)) if n == from)) { self.feats.insert("use+import-same-iface".into()); } } }
+                // implicit imports: everything reachable through `use` from the referenced interfaces, not imported explicitly
+                let mut reach = BTreeSet::new(); let mut todo: Vec<String> = refs.iter().cloned().collect();
+                while let Some(x) = todo.pop() { if reach.insert(x.clone()) { if let Some(i) = ifaces.iter().find(|i| i.name == x) { todo.extend(i.deps.iter().cloned()); } } }
+                let strict = reach.iter().filter(|n| !expl_if_imports.contains(*n)).all(|n| ifaces.iter().find(|i| &i.name == n).map(|i| !i.has_funcs).unwrap_or(true));
+                // the reference satisfies a dependency of an export from another export of the world when the interface is
+                // exported and not imported; wac imports it: the world types then legitimately differ in an implicit import
+                let mut dreach = BTreeSet::new(); let mut todo: Vec<String> = exp_deps.iter().cloned().collect();
+                while let Some(x) = todo.pop() { if dreach.insert(x.clone()) { if let Some(i) = ifaces.iter().find(|i| i.name == x) { todo.extend(i.deps.iter().cloned()); } } }
+                let expdep = dreach.iter().any(|d| exp_ifaces.contains(d));
+                metas.push(format!("W|{wname}|{}|{}|{}", imps.join(","), exps.join(","), if expdep { 2 } else if strict { 1 } else { 0 }));
+                worlds.push(WorldInfo { name: wname.clone(), imports: imps, exports: exps, iface_refs: refs, explicit_iface_imports: expl_if_imports, export_ifaces: exp_ifaces, export_deps: exp_deps, has_use, has_use_res });
+                tops.push(Top::W(World { name: wname, items }));
+            }
+        }
+        for f in &self.feats { metas.push(format!("F|{f}")); }
+        (Pkg { name, version, tops }, metas.join(";"))
+    }
+}
+
+// ------------------------------------------------------------------------------------------------ observation of the real resolver
+fn prim(p: PrimitiveType) -> &'static str {
+    match p {
+        PrimitiveType::U8 => "u8", PrimitiveType::S8 => "s8", PrimitiveType::U16 => "u16", PrimitiveType::S16 => "s16",
+        PrimitiveType::U32 => "u32", PrimitiveType::S32 => "s32", PrimitiveType::U64 => "u64", PrimitiveType::S64 => "s64",
+        PrimitiveType::F32 => "f32", PrimitiveType::F64 => "f64", PrimitiveType::Char => "char", PrimitiveType::Bool => "bool",
+        PrimitiveType::String => "string", PrimitiveType::ErrorContext => "error-context",
+    }
+}
+fn res_name(t: &Types, r: ResourceId) -> String { t[t.resolve_resource(r)].name.clone() }
+fn s_vt(t: &Types, v: ValueType) -> String {
+    let o = |x: &Option<ValueType>| match x { Some(y) => s_vt(t, *y), None => "_".into() };
+    match v {
+        ValueType::Primitive(p) => prim(p).into(),
+        ValueType::Borrow(r) => format!("borrow({})", res_name(t, r)),
+        ValueType::Own(r) => format!("own({})", res_name(t, r)),
+        ValueType::Defined(d) => match &t[d] {
+            DefinedType::Tuple(l) => format!("tuple({})", l.iter().map(|x| s_vt(t, *x)).collect::<Vec<_>>().join(",")),
+            DefinedType::List(x) => format!("list({})", s_vt(t, *x)),
+            DefinedType::FixedSizeList(x, n) => format!("fsl({},{n})", s_vt(t, *x)),
+            DefinedType::Option(x) => format!("option({})", s_vt(t, *x)),
+            DefinedType::Result { ok, err } => format!("result({},{})", o(ok), o(err)),
+            DefinedType::Variant(v) => format!("variant({})", v.cases.iter().map(|(n, x)| match x { Some(y) => format!("{n}:{}", s_vt(t, *y)), None => n.clone() }).collect::<Vec<_>>().join(",")),
+            DefinedType::Record(r) => format!("record({})", r.fields.iter().map(|(n, x)| format!("{n}:{}", s_vt(t, *x))).collect::<Vec<_>>().join(",")),
+            DefinedType::Flags(f) => format!("flags({})", f.0.iter().cloned().collect::<Vec<_>>().join(",")),
+            DefinedType::Enum(e) => format!("enum({})", e.0.iter().cloned().collect::<Vec<_>>().join(",")),
+            DefinedType::Alias(x) => s_vt(t, *x),
+            DefinedType::Stream(x) => format!("stream({})", o(x)),
+            DefinedType::Future(x) => format!("future({})", o(x)),
+        },
+    }
+}
+fn s_func(t: &Types, f: FuncTypeId) -> String {
+    let f = &t[f];
+    format!("{}func({})->{}", if f.is_async { "async " } else { "" },
+        f.params.iter().map(|(n, x)| format!("{n}:{}", s_vt(t, *x))).collect::<Vec<_>>().join(","),
+        match f.result { Some(y) => s_vt(t, y), None => "_".into() })
+}
+fn s_items<'a>(t: &Types, l: impl Iterator<Item = (&'a String, &'a ItemKind)>) -> String {
+    l.map(|(n, k)| format!("{n}={}", s_kind(t, *k))).collect::<Vec<_>>().join(";")
+}
+fn s_kind(t: &Types, k: ItemKind) -> String {
+    match k {
+        ItemKind::Func(f) => format!("F:{}", s_func(t, f)),
+        ItemKind::Instance(i) => format!("I{{{}}}", s_items(t, t[i].exports.iter())),
+        ItemKind::Component(w) => format!("C{{{}}}{{{}}}", s_items(t, t[w].imports.iter()), s_items(t, t[w].exports.iter())),
+        ItemKind::Module(_) => "M".into(),
+        ItemKind::Value(v) => format!("V:{}", s_vt(t, v)),
+        ItemKind::Type(Type::Resource(r)) => format!("res({})", res_name(t, r)),
+        ItemKind::Type(Type::Func(f)) => format!("TF:{}", s_func(t, f)),
+        ItemKind::Type(Type::Value(v)) => format!("T:{}", s_vt(t, v)),
+        ItemKind::Type(Type::Interface(i)) => format!("TI{{{}}}", s_items(t, t[i].exports.iter())),
+        ItemKind::Type(Type::World(w)) => format!("TC{{{}}}{{{}}}", s_items(t, t[w].imports.iter()), s_items(t, t[w].exports.iter())),
+        ItemKind::Type(Type::Module(_)) => "TM".into(),
+    }
+}
+fn s_uses(t: &Types, u: &indexmap::IndexMap<String, UsedType>) -> String {
+    u.iter().map(|(n, x)| format!("{n}<-{}#{}", t[x.interface].id.clone().unwrap_or("-".into()), x.name.clone().unwrap_or("-".into()))).collect::<Vec<_>>().join(",")
+}
+fn s_meta(t: &Types, k: ItemKind) -> String {
+    match k {
+        ItemKind::Type(Type::Interface(i)) => format!("id={} uses=[{}]", t[i].id.clone().unwrap_or("-".into()), s_uses(t, &t[i].uses)),
+        ItemKind::Type(Type::World(w)) => format!("id={} uses=[{}]", t[w].id.clone().unwrap_or("-".into()), s_uses(t, &t[w].uses)),
+        _ => "-".into(),
+    }
+}
+
+
+// ------------------------------------------------------------------------------------------------ shape features (signatures of known findings)
+fn closure(t: &Types, i: InterfaceId, out: &mut Vec<String>) {
+    // dependencies first, then the interface itself (TypeEncoder::import_deps)
+    for u in t[i].uses.values() { closure(t, u.interface, out); }
+    if let Some(id) = &t[i].id { if !out.contains(id) { out.push(id.clone()); } }
+}
+fn res_collision<'a>(t: &Types, items: impl Iterator<Item = (&'a String, &'a ItemKind)>) -> bool {
+    let mut seen: Vec<(String, ResourceId)> = Vec::new();   // (definition name, id) of the resource externs so far
+    for (n, k) in items {
+        if let ItemKind::Type(Type::Resource(r)) = k {
+            let dn = t[*r].name.clone();
+            if seen.iter().any(|(d, id)| *d == dn || (d == n && id != r)) { return true; }
+            seen.push((dn, *r));
+        }
+    }
+    false
+}
+fn iface_collision(t: &Types, i: InterfaceId) -> bool { res_collision(t, t[i].exports.iter()) }
+/// `type a = b` where `b` was obtained by `use`
+fn alias_of_used<'a>(t: &Types, uses: &indexmap::IndexMap<String, UsedType>, items: &indexmap::IndexMap<String, ItemKind>) -> bool {
+    let used: Vec<ItemKind> = uses.keys().filter_map(|k| items.get(k).copied()).collect();
+    items.iter().any(|(n, k)| !uses.contains_key(n) && match k {
+        ItemKind::Type(Type::Value(ValueType::Defined(d))) => match &t[*d] { DefinedType::Alias(v) => used.contains(&ItemKind::Type(Type::Value(*v))), _ => false },
+        _ => false })
+}
+/// `type a = r` where the resource `r` was obtained by `use`
+fn res_alias_of_used(t: &Types, uses: &indexmap::IndexMap<String, UsedType>, items: &indexmap::IndexMap<String, ItemKind>) -> bool {
+    let used: Vec<ResourceId> = uses.keys().filter_map(|k| match items.get(k) { Some(ItemKind::Type(Type::Resource(r))) => Some(*r), _ => None }).collect();
+    items.iter().any(|(n, k)| !uses.contains_key(n) && match k {
+        ItemKind::Type(Type::Resource(r)) => match &t[*r].alias { Some(a) => used.contains(&a.source), None => false },
+        _ => false })
+}
+fn all_use_names(t: &Types, i: InterfaceId, out: &mut BTreeSet<String>, depth: u32) {
+    if depth > 8 { return; }
+    for (n, u) in &t[i].uses { out.insert(n.clone()); all_use_names(t, u.interface, out, depth + 1); }
+}
+fn world_features(t: &Types, w: WorldId, f: &mut BTreeSet<String>) {
+    let world = &t[w];
+    let mut inst: Vec<String> = Vec::new();
+    for u in world.uses.values() { closure(t, u.interface, &mut inst); }
+    if alias_of_used(t, &world.uses, &world.imports) { f.insert("alias-of-used-type".into()); }
+    if res_alias_of_used(t, &world.uses, &world.imports) { f.insert("res-alias-of-used".into()); }
+    let mut leaked: BTreeSet<String> = BTreeSet::new();    // local names of `use`s of interfaces encoded so far
+    for u in world.uses.values() { all_use_names(t, u.interface, &mut leaked, 0); }
+    for (n, k) in &world.imports {
+        if let ItemKind::Type(_) = k { if !world.uses.contains_key(n) && leaked.contains(n) { f.insert("alias-name-leak".into()); } }
+        if let ItemKind::Instance(i) = k {
+            all_use_names(t, *i, &mut leaked, 0);
+            if alias_of_used(t, &t[*i].uses, &t[*i].exports) { f.insert("alias-of-used-type".into()); }
+            if res_alias_of_used(t, &t[*i].uses, &t[*i].exports) { f.insert("res-alias-of-used".into()); }
+            if let Some(id) = &t[*i].id { if inst.contains(id) { f.insert("dup-import".into()); } }
+            for u in t[*i].uses.values() { closure(t, u.interface, &mut inst); }
+            if let Some(id) = &t[*i].id { if !inst.contains(id) { inst.push(id.clone()); } }
+            if iface_collision(t, *i) { f.insert("res-name-collision".into()); }
+        }
+    }
+    for (_, k) in &world.exports { if let ItemKind::Instance(i) = k {
+        if iface_collision(t, *i) { f.insert("res-name-collision".into()); }
+        if alias_of_used(t, &t[*i].uses, &t[*i].exports) { f.insert("alias-of-used-type".into()); }
+        if res_alias_of_used(t, &t[*i].uses, &t[*i].exports) { f.insert("res-alias-of-used".into()); } } }
+    if res_collision(t, world.imports.iter()) { f.insert("res-name-collision".into()); }
+}
+fn world_decl<'a, 'b>(doc: &'b wac_parser::Document<'a>, name: &str) -> Option<&'b wac_parser::WorldDecl<'a>> {
+    doc.statements.iter().find_map(|s| match s { wac_parser::Statement::Type(wac_parser::TypeStatement::World(w)) if w.id.string == name => Some(w), _ => None })
+}
+fn world_has_use(doc: &wac_parser::Document, name: &str, depth: u32) -> bool {
+    if depth > 8 { return false; }
+    match world_decl(doc, name) {
+        None => false,
+        Some(w) => w.items.iter().any(|it| match it {
+            wac_parser::WorldItem::Use(_) => true,
+            wac_parser::WorldItem::Include(i) => match &i.world { wac_parser::WorldRef::Ident(id) => world_has_use(doc, id.string, depth + 1), _ => false },
+            _ => false,
+        }),
+    }
+}
+fn features(doc: &wac_parser::Document, g: &wac_graph::CompositionGraph) -> String {
+    let t = g.types();
+    let mut f = BTreeSet::new();
+    for s in &doc.statements {
+        if let wac_parser::Statement::Type(ts) = s {
+            match ts {
+                wac_parser::TypeStatement::Interface(i) => {
+                    if let Some(ItemKind::Type(Type::Interface(id))) = g.get_export(i.id.string).map(|n| g[n].item_kind()) {
+                        if iface_collision(t, id) { f.insert("res-name-collision".into()); }
+                        if alias_of_used(t, &t[id].uses, &t[id].exports) { f.insert("alias-of-used-type".into()); }
+                        if res_alias_of_used(t, &t[id].uses, &t[id].exports) { f.insert("res-alias-of-used".into()); } }
+                }
+                wac_parser::TypeStatement::World(w) => {
+                    let wid = match g.get_export(w.id.string).map(|n| g[n].item_kind()) { Some(ItemKind::Type(Type::World(id))) => id, _ => continue };
+                    world_features(t, wid, &mut f);
+                    for it in &w.items {
+                        if let wac_parser::WorldItem::Include(inc) = it {
+                            if let wac_parser::WorldRef::Ident(v) = &inc.world {
+                                if world_has_use(doc, v.string, 0) { f.insert("include-of-use".into()); }
+                                if let Some(ItemKind::Type(Type::World(vid))) = g.get_export(v.string).map(|n| g[n].item_kind()) {
+                                    for r in &inc.with {
+                                        if t[vid].imports.contains_key(r.from.string) && t[vid].exports.contains_key(r.from.string) { f.insert("include-with-both-sides".into()); }
+                                        if let Some(ItemKind::Type(Type::Resource(_))) = t[vid].imports.get(r.from.string) {
+                                            let pre = [format!("[constructor]{}", r.from.string), format!("[method]{}.", r.from.string), format!("[static]{}.", r.from.string)];
+                                            if t[vid].imports.keys().any(|k| pre.iter().any(|p| k.starts_with(p.as_str()))) { f.insert("include-with-renames-resource".into()); }
+                                        }
+                                    }
+                                }
+                            }
+                        }
+                    }
+                }
+                _ => {}
+            }
+        }
+    }
+    f.into_iter().collect::<Vec<_>>().join(",")
+}
+
+static LAST_PANIC: std::sync::Mutex<String> = std::sync::Mutex::new(String::new());
+fn last_panic() -> String { LAST_PANIC.lock().unwrap().chars().take(300).collect() }
+
+fn err_class<E: std::fmt::Debug>(e: &E) -> String {
+    let d = format!("{e:?}");
+    d.split(|c: char| !(c.is_alphanumeric())).next().unwrap_or("?").to_string()
+}
+
+/// observation + (if everything succeeds) the encoded bytes
+fn observe_wac(src: &str) -> (String, Option<Result<Vec<u8>, String>>, String) {
+    let r = catch_unwind(AssertUnwindSafe(|| {
+        let doc = match wac_parser::Document::parse(src) { Ok(d) => d, Err(_) => return ("PARSE-ERR".to_string(), None, String::new()) };
+        let res = match doc.resolve(Default::default()) { Ok(r) => r, Err(e) => return (format!("ERR {}", err_class(&e)), None, String::new()) };
+        let g = res.graph(); let t = g.types();
+        let mut trees = Vec::new(); let mut metas = Vec::new();
+        for s in &doc.statements {
+            let name = match s {
+                wac_parser::Statement::Type(wac_parser::TypeStatement::Interface(i)) => i.id.string,
+                wac_parser::Statement::Type(wac_parser::TypeStatement::World(w)) => w.id.string,
+                wac_parser::Statement::Type(wac_parser::TypeStatement::Type(d)) => d.id().string,
+                _ => return ("UNMODELLED".to_string(), None, String::new()),
+            };
+            let node = match g.get_export(name) { Some(n) => n, None => return (format!("NO-EXPORT {name}"), None, String::new()) };
+            let k = g[node].item_kind();
+            trees.push(format!("{name}={}", s_kind(t, k)));
+            metas.push(format!("{name}:{}", s_meta(t, k)));
+        }
+        let obs = format!("OK {} ## {}", trees.join(" | "), metas.join(" | "));
+        let enc = catch_unwind(AssertUnwindSafe(|| res.encode(wac_graph::EncodeOptions::default()).map_err(|e| format!("{}: {e:?}", err_class(&e)))))
+            .unwrap_or_else(|_| Err(format!("PANIC in encode: {}", last_panic())));
+        let feats = catch_unwind(AssertUnwindSafe(|| features(&doc, g))).unwrap_or_else(|_| "FEATURE-PANIC".into());
+        (obs, Some(enc), feats)
+    }));
+    r.unwrap_or_else(|_| (format!("PANIC {}", last_panic()), None, String::new()))
+}
 
 fn wit_encode(wit: &str) -> Result<Vec<u8>, String> {
-    let mut resolve = wit_parser::Resolve::default();
-    let id = resolve.push_str("c05.wit", wit).map_err(|e| format!("{e:#}"))?;
-    wit_component::encode(&resolve, id).map_err(|e| format!("{e:#}"))
+    catch_unwind(AssertUnwindSafe(|| {
+        let mut resolve = wit_parser::Resolve::default();
+        let id = resolve.push_str("c05.wit", wit).map_err(|e| format!("{e:#}"))?;
+        wit_component::encode(&resolve, id).map_err(|e| format!("{e:#}"))
+    })).unwrap_or_else(|_| Err("PANIC in the reference toolchain".into()))
 }
 
-fn wac_encode(wac: &str) -> Result<Vec<u8>, String> {
-    let doc = wac_parser::Document::parse(wac).map_err(|e| format!("parse: {e:?}"))?;
-    let res = doc.resolve(Default::default()).map_err(|e| format!("resolve: {e:?}"))?;
-    res.encode(wac_graph::EncodeOptions::default()).map_err(|e| format!("encode: {e:?}"))
+struct WMeta { name: String, imports: Vec<String>, exports: Vec<String>, strict: bool, skip_wp: bool }
+fn parse_meta(meta: &str) -> (Vec<WMeta>, Vec<String>) {
+    let mut w = Vec::new(); let mut f = Vec::new();
+    let l = |s: &str| if s.is_empty() { vec![] } else { s.split(',').map(|x| x.to_string()).collect::<Vec<_>>() };
+    for rec in meta.split(';') {
+        let p: Vec<&str> = rec.split('|').collect();
+        if p[0] == "W" && p.len() == 5 { w.push(WMeta { name: p[1].to_string(), imports: l(p[2]), exports: l(p[3]), strict: p[4] == "1", skip_wp: p[4] == "2" }); }
+        else if p[0] == "F" && p.len() == 2 { f.push(p[1].to_string()); }
+    }
+    (w, f)
 }
+
+fn mutual(types: &Types, a: ItemKind, b: ItemKind) -> Result<(), String> {
+    let mut cache = HashSet::new();
+    SubtypeChecker::new(&mut cache).is_subtype(a, types, b, types).map_err(|e| format!("reference </= wac: {e:#}"))?;
+    let mut cache = HashSet::new();
+    SubtypeChecker::new(&mut cache).is_subtype(b, types, a, types).map_err(|e| format!("wac </= reference: {e:#}"))
+}
+
+/// wac-types level comparison: both binaries in ONE Types collection
+fn compare_ref(wit_bytes: &[u8], wac_bytes: &[u8], worlds: &[WMeta]) -> String {
+    let r = catch_unwind(AssertUnwindSafe(|| -> Result<(usize, usize), String> {
+        let mut types = Types::default();
+        let pw = match catch_unwind(AssertUnwindSafe(|| Package::from_bytes("ref", None, wit_bytes.to_vec(), &mut types))) {
+            Ok(r) => r.map_err(|e| format!("SKIP decoder rejects the reference encoding: {e:#}"))?, Err(_) => return Err(format!("SKIP decoder panics on the reference encoding: {}", last_panic())) };
+        let pc = match catch_unwind(AssertUnwindSafe(|| Package::from_bytes("wac", None, wac_bytes.to_vec(), &mut types))) {
+            Ok(r) => r.map_err(|e| format!("decode wac: {e:#}"))?, Err(_) => return Err(format!("SKIP decoder panics on the wac encoding: {}", last_panic())) };
+        let (mut ni, mut nw) = (0, 0);
+        for n in pc.definitions().keys() { if !pw.definitions().contains_key(n) { return Err(format!("{n}: defined by wac only")); } }
+        for (n, k) in pw.definitions() {
+            let k2 = *pc.definitions().get(n).ok_or(format!("{n}: missing in the wac encoding"))?;
+            match (*k, k2) {
+                (ItemKind::Type(Type::Interface(_)), ItemKind::Type(Type::Interface(_))) => { mutual(&types, *k, k2).map_err(|e| format!("interface {n}: {e}"))?; ni += 1; }
+                (ItemKind::Type(Type::World(a)), ItemKind::Type(Type::World(b))) => {
+                    let meta = worlds.iter().find(|w| &w.name == n);
+                    let (wa, wb) = (&types[a], &types[b]);
+                    // exports: explicit on both sides
+                    let ka: BTreeSet<&String> = wa.exports.keys().collect(); let kb: BTreeSet<&String> = wb.exports.keys().collect();
+                    if ka != kb { return Err(format!("world {n}: export names differ: reference {ka:?} wac {kb:?}")); }
+                    for (x, ia) in &wa.exports { mutual(&types, *ia, wb.exports[x]).map_err(|e| format!("world {n} export {x}: {e}"))?; }
+                    // imports: every import of the wac encoding exists in the reference; explicit ones mutually subtype,
+                    // the others (implicit interface imports, which wac trims to the used types) in one direction
+                    for (x, ib) in &wb.imports {
+                        let explicit = meta.map(|m| m.imports.contains(x)).unwrap_or(false);
+                        // an implicit interface import that only wac has: the reference satisfies the dependency of an
+                        // export from another export of the world (tolerated: the property speaks of explicit items)
+                        if !explicit && x.contains('/') && !wa.imports.contains_key(x) && wa.exports.contains_key(x) { continue; }
+                        let ia = *wa.imports.get(x).ok_or(format!("world {n}: import {x} only in the wac encoding"))?;
+                        if explicit { mutual(&types, ia, *ib).map_err(|e| format!("world {n} import {x}: {e}"))?; }
+                        else { let mut c = HashSet::new(); SubtypeChecker::new(&mut c).is_subtype(ia, &types, *ib, &types).map_err(|e| format!("world {n} implicit import {x}: reference </= wac: {e:#}"))?; }
+                    }
+                    if let Some(m) = meta {
+                        for x in &m.imports { if !wb.imports.contains_key(x) { return Err(format!("world {n}: explicit import {x} missing in the wac encoding")); } if !wa.imports.contains_key(x) { return Err(format!("world {n}: explicit import {x} missing in the reference encoding")); } }
+                        for x in &m.exports { if !wb.exports.contains_key(x) { return Err(format!("world {n}: explicit export {x} missing in the wac encoding")); } }
+                    }
+                    for x in wa.imports.keys() { if !wb.imports.contains_key(x) && !x.contains('/') { return Err(format!("world {n}: plain import {x} missing in the wac encoding")); } }
+                    nw += 1;
+                }
+                _ => return Err(format!("{n}: kinds differ")),
+            }
+        }
+        Ok((ni, nw))
+    }));
+    match r { Ok(Ok((i, w))) => format!("REF-OK {i} {w}"), Ok(Err(e)) if e.starts_with("SKIP ") => format!("REF-{e}"), Ok(Err(e)) => format!("REF-DIFF {e}"), Err(_) => format!("REF-DIFF PANIC while comparing: {}", last_panic()) }
+}
+
+/// validator level comparison: both binaries nested in one component; wasmparser's own subtyping on the exported types
+fn compare_wp(wit_bytes: &[u8], wac_bytes: &[u8], worlds: &[WMeta]) -> String {
+    let r = catch_unwind(AssertUnwindSafe(|| -> Result<usize, String> {
+        use wasmparser::component_types::ComponentEntityType as E;
+        let mut outer = wasm_encoder::Component::new();
+        outer.section(&wasm_encoder::RawSection { id: 4, data: wit_bytes });
+        outer.section(&wasm_encoder::RawSection { id: 4, data: wac_bytes });
+        let bytes = outer.finish();
+        let mut v = wasmparser::Validator::new_with_features(wasmparser::WasmFeatures::all());
+        let types = v.validate_all(&bytes).map_err(|e| format!("nested component does not validate: {e}"))?;
+        let tr = types.as_ref();
+        let (ca, cb) = (&tr[tr.component_at(0)], &tr[tr.component_at(1)]);
+        let mut n = 0;
+        for (name, ea) in ca.exports.iter() {
+            let eb = cb.exports.get(name).ok_or(format!("{name}: missing in the wac encoding"))?;
+            let ab = E::is_subtype_of(ea, tr, eb, tr); let ba = E::is_subtype_of(eb, tr, ea, tr);
+            match worlds.iter().find(|w| &w.name == name) {
+                None => { if !(ab && ba) { return Err(format!("interface {name}: reference<=wac {ab}, wac<=reference {ba}")); } }
+                Some(m) if m.skip_wp => { continue; }
+                Some(m) => {
+                    if !ba { return Err(format!("world {name}: wac<=reference false")); }
+                    if m.strict && !ab { return Err(format!("world {name}: reference<=wac false (no function-bearing implicit import)")); }
+                }
+            }
+            n += 1;
+        }
+        Ok(n)
+    }));
+    match r { Ok(Ok(n)) => format!("WP-OK {n}"), Ok(Err(e)) => format!("WP-DIFF {e}"), Err(_) => format!("WP-SKIP the validator's subtype check panics: {}", last_panic()) }
+}
+
+fn evaluate(kind: &str, wac: &str, wit: &str, meta: &str) -> String {
+    let (obs, enc, feats) = observe_wac(wac);
+    let feats = if feats.is_empty() { "-".to_string() } else { feats };
+    if kind != "pkg" { return format!("{obs}\t-\t-\t{feats}"); }
+    let (worlds, _) = parse_meta(meta);
+    let clean = |s: String| s.replace(['\n', '\t'], " ");
+    let wb = match wit_encode(wit) { Ok(b) => b, Err(e) => return format!("{obs}\tREF-SKIP reference toolchain rejects the text: {}\tWP-SKIP\t{feats}", clean(e)) };
+    let cb = match enc {
+        None => return format!("{obs}\tREF-DIFF wac does not resolve a text the reference accepts\tWP-SKIP\t{feats}"),
+        Some(Err(e)) => return format!("{obs}\tREF-DIFF wac encode fails: {}\tWP-SKIP\t{feats}", clean(e)),
+        Some(Ok(b)) => b,
+    };
+    format!("{obs}\t{}\t{}\t{feats}", clean(compare_ref(&wb, &cb, &worlds)), clean(compare_wp(&wb, &cb, &worlds)))
+}
+
+// ------------------------------------------------------------------------------------------------ negative cases (WAC only)
+fn negatives(r: &mut Rng, n_random: usize) -> Vec<String> {
+    let hdr = "package x:y;\n";
+    let mut v: Vec<String> = vec![
+        // duplicate / undefined names
+        "interface a { record t { f: u8 } record t { g: u8 } }".into(),
+        "interface a { type t = u8; type t = u16; }".into(),
+        "interface a { resource r; resource r; }".into(),
+        "interface a { type t = nope; }".into(),
+        "interface a { f: func(x: nope); }".into(),
+        "interface a { f: func() -> nope; }".into(),
+        "interface a {} interface a {}".into(),
+        "interface a {} world a {}".into(),
+        "type t = u8; type t = u16;".into(),
+        "type t = u8; interface t {}".into(),
+        // duplicate members of structural types
+        "interface a { variant v { x, x } }".into(),
+        "interface a { variant v { x(u8), y, x(u16) } }".into(),
+        "interface a { record r { x: u8, x: u16 } }".into(),
+        "interface a { flags f { x, y, x } }".into(),
+        "interface a { enum e { x, x } }".into(),
+        "variant v { x, x }".into(), "record r { x: u8, x: u8 }".into(), "flags f { x, x }".into(), "enum e { x, x }".into(),
+        // aliases, references of the wrong kind
+        "interface a {} type t = a;".into(),
+        "world w {} type t = w;".into(),
+        "interface a { type f = func(); g: f; type h = f; k: h; }".into(),
+        "interface a { type t = u8; g: t; }".into(),
+        "interface a { type t = u8; f: func(x: borrow<t>); }".into(),
+        "interface a { type f = func(); g: func(x: f); }".into(),
+        "interface a { type f = func(); type t = list<f>; }".into(),
+        "interface a { resource r; type r2 = r; type r3 = r2; f: func(x: borrow<r3>) -> r2; }".into(),
+        // parameters, results
+        "interface a { f: func(x: u8, x: u16); }".into(),
+        "interface a { resource r { m: func(self: u8); } }".into(),
+        "interface a { resource r { s: static func(self: u8); } }".into(),
+        "interface a { resource r { constructor(x: u8, x: u8); } }".into(),
+        "interface a { resource r; f: func() -> borrow<r>; }".into(),
+        "interface a { resource r; f: func() -> list<borrow<r>>; }".into(),
+        "interface a { resource r; f: func() -> tuple<u8, option<borrow<r>>>; }".into(),
+        "interface a { resource r; f: func() -> result<u8, borrow<r>>; }".into(),
+        "interface a { resource r; f: func() -> result<borrow<r>>; }".into(),
+        "interface a { resource r; type f = func() -> borrow<r>; }".into(),
+        "interface a { resource r { m: func() -> borrow<r>; } }".into(),
+        "interface a { resource r; f: func(x: list<borrow<r>>) -> r; }".into(),
+        "type f = func() -> u8; type g = func(x: u8, x: u8);".into(),
+        // resources
+        "interface a { resource r { constructor(); constructor(x: u8); } }".into(),
+        "interface a { resource r { m: func(); m: func(x: u8); } }".into(),
+        "interface a { resource r { m: func(); m: static func(); } }".into(),
+        "interface a { resource r { m: static func(); n: func(); constructor(); } }".into(),
+        // interface exports
+        "interface a { f: func(); f: func(x: u8); }".into(),
+        "interface a { type f = u8; f: func(); }".into(),
+        "interface a { f: func(); type f = u8; }".into(),
+        "interface a { f: func(); record f { x: u8 } }".into(),
+        "interface a { f: func(); resource f; }".into(),
+        "interface a { resource r { m: func(); } r: func(); }".into(),
+        // use
+        "interface a { type t = u8; } interface b { use a.{nope}; }".into(),
+        "interface a { type t = u8; } interface b { use nope.{t}; }".into(),
+        "interface a { type t = u8; } interface b { use b.{t}; }".into(),
+        "interface a { f: func(); } interface b { use a.{f}; }".into(),
+        "interface a { type f = func(); } interface b { use a.{f}; }".into(),
+        "interface a { type t = u8; } interface b { type t = u16; use a.{t}; }".into(),
+        "interface a { type t = u8; } interface b { use a.{t}; type t = u16; }".into(),
+        "interface a { type t = u8; } interface b { use a.{t, t}; }".into(),
+        "interface a { type t = u8; } interface b { use a.{t as u, t as u}; }".into(),
+        "interface a { type t = u8; } interface b { use a.{t as u, t as v}; f: func(x: u) -> v; }".into(),
+        "interface a { type t = u8; } interface b { f: func(); use a.{t as f}; }".into(),
+        "interface a { type t = u8; } world w { use a.{t}; } interface b { use w.{t}; }".into(),
+        "type t = u8; interface b { use t.{x}; }".into(),
+        "interface a { type t = u8; } interface b { use x:y/a.{t}; }".into(),
+        "interface a { resource r { constructor(); } } interface b { use a.{r}; f: func() -> r; } interface c { use b.{r as q}; g: func(x: borrow<q>); }".into(),
+        // worlds
+        "world w { import f: func(); import f: func(); }".into(),
+        "world w { export f: func(); export f: func(); }".into(),
+        "world w { import f: func(); export f: func(); }".into(),
+        "interface a {} world w { import a; import a; }".into(),
+        "interface a {} world w { import a; export a; }".into(),
+        "interface a {} world w { export a; export a; }".into(),
+        "world w { import nope; }".into(),
+        "type t = u8; world w { import t; }".into(),
+        "world v {} world w { import v; }".into(),
+        "interface a {} world w { import x: a; export y: a; }".into(),
+        "type f = func(x: u8); world w { import x: f; }".into(),
+        "type t = u8; world w { import x: t; }".into(),
+        "world w { import x: nope; }".into(),
+        "world w { type t = u8; import x: t; }".into(),
+        "world w { type f = func(); import x: f; }".into(),
+        "world w { import t: func(); type t = u8; }".into(),
+        "world w { import r: func(); resource r; }".into(),
+        "world w { type t = u8; import t: func(); }".into(),
+        "world w { resource r { constructor(); m: func(); } import f: func(x: borrow<r>) -> r; export g: func() -> r; }".into(),
+        "world w { import i: interface { type t = u8; f: func() -> t; }; export j: interface { resource r; }; }".into(),
+        "interface a { type t = u8; } world w { import i: interface { use a.{t}; f: func() -> t; }; }".into(),
+        "world w { type t = u8; import i: interface { f: func() -> t; }; }".into(),
+        "interface a { type t = u8; } world w { use a.{t}; use a.{t}; }".into(),
+        "interface a { type t = u8; } world w { use a.{t}; type t = u16; }".into(),
+        "interface a { type t = u8; } world w { import t: func(); use a.{t}; }".into(),
+        "interface a { type t = u8; } world w { use a.{t}; import a; }".into(),
+        // include
+        "world v { import f: func(); } world w { include v; }".into(),
+        "world v { import f: func(); } world w { include nope; }".into(),
+        "interface v {} world w { include v; }".into(),
+        "world v { import f: func(); } world w { import f: func(); include v; }".into(),
+        "world v { import f: func(); } world w { include v; import f: func(); }".into(),
+        "world v { export f: func(); } world w { export f: func(); include v; }".into(),
+        "world v { import f: func(); } world w { import f: func(); include v with { f as g }; }".into(),
+        "world v { import f: func(); } world w { import g: func(); include v with { f as g }; }".into(),
+        "world v { import f: func(); } world w { include v with { nope as g }; }".into(),
+        "world v { import f: func(); } world w { include v with { f as g, f as h }; }".into(),
+        "world v { import f: func(); export h: func(); } world w { include v with { f as g, h as k }; }".into(),
+        "world v { import f: func(); export f: func(); } world w { include v with { f as g }; }".into(),
+        "interface a {} world v { import a; } world w { import a; include v; }".into(),
+        "interface a {} world v { import a; } world w { include v with { a as b }; }".into(),
+        "interface a {} world v { export a; import f: func(); } world u { export a; import g: func(); } world w { include v; include u; }".into(),
+        "world v { import f: func(); } world u { import f: func(); } world w { include v; include u; }".into(),
+        "world v { import f: func(); } world u { import f: func(); } world w { include v; include u with { f as g }; }".into(),
+        "world v { import f: func(); } world w { include v; include v; }".into(),
+        "world v { type t = u8; import f: func(x: t); } world w { include v with { t as u }; }".into(),
+        "world w { include w; }".into(),
+        // outside the declaration half
+        "import f: func();".into(),
+        "interface a {} export a;".into(),
+    ].into_iter().map(|b: String| format!("{hdr}{b}\n")).collect();
+    v.push("package x:y@1.0.0;\ninterface a { type t = u8; }\nworld w { import a; export a; }\n".into());
+    v.push("package x:y@0.1.0-rc.1+b7;\ninterface a { type t = u8; }\nworld w { import a; }\n".into());
+    v.push("package x:y targets x:z/w;\ninterface a {}\n".into());
+    // random single-point mutations of generated packages
+    for _ in 0..n_random {
+        let mut g = Gen { r, n: 0, feats: BTreeSet::new() };
+        let (p, _) = g.pkg(3, 2);
+        let src = render(&p, Lang::Wac);
+        let lines: Vec<&str> = src.lines().collect();
+        let idx: Vec<usize> = (0..lines.len()).filter(|i| lines[*i].starts_with("  ") && lines[*i].trim_end().ends_with(';') || lines[*i].trim_start().starts_with("record") || lines[*i].trim_start().starts_with("enum")).collect();
+        if idx.is_empty() { continue; }
+        let i = idx[r.below(idx.len() as u64) as usize];
+        let mut out: Vec<String> = lines.iter().map(|s| s.to_string()).collect();
+        match r.below(4) {
+            0 => { let l = out[i].clone(); out.insert(i, l); }                                   // duplicate a line
+            1 => { out.remove(i); }                                                              // delete a line (dangling references)
+            2 => { out[i] = out[i].replace("-> ", "-> borrow<").replacen(";", ">;", if out[i].contains("-> ") { 1 } else { 0 }); }
+            _ => { if i + 1 < out.len() { out.swap(i, i + 1); } }                                // use before declaration
+        }
+        v.push(out.join("\n") + "\n");
+    }
+    v
+}
+
+// ------------------------------------------------------------------------------------------------ main
+fn enc(s: &str) -> String { if s.is_empty() { "-".into() } else { s.chars().map(|c| (c as u32).to_string()).collect::<Vec<_>>().join(",") } }
+fn dec(s: &str) -> String { if s == "-" || s.is_empty() { String::new() } else { s.split(',').map(|x| char::from_u32(x.parse().unwrap()).unwrap()).collect() } }
 
 fn main() {
     let a: Vec<String> = std::env::args().collect();
-    let wit = std::fs::read_to_string(&a[2]).unwrap();
-    let wac = std::fs::read_to_string(&a[3]).unwrap();
-    let wb = wit_encode(&wit).unwrap();
-    let cb = wac_encode(&wac).unwrap();
-    println!("--- wit\n{}", wasmprinter::print_bytes(&wb).unwrap());
-    println!("--- wac\n{}", wasmprinter::print_bytes(&cb).unwrap());
-    let mut types = Types::default();
-    let pw = Package::from_bytes("ref", None, wb, &mut types).unwrap();
-    let pc = Package::from_bytes("wac", None, cb, &mut types).unwrap();
-    println!("wit defs {:?}", pw.definitions().keys().collect::<Vec<_>>());
-    println!("wac defs {:?}", pc.definitions().keys().collect::<Vec<_>>());
-    // wasmparser-level
-    {
-        let wb = wit_encode(&wit).unwrap(); let cb = wac_encode(&wac).unwrap();
-        let mut outer = wasm_encoder::Component::new();
-        outer.section(&wasm_encoder::RawSection { id: 4, data: &wb });
-        outer.section(&wasm_encoder::RawSection { id: 4, data: &cb });
-        let bytes = outer.finish();
-        let mut v = wasmparser::Validator::new_with_features(wasmparser::WasmFeatures::all());
-        let types = v.validate_all(&bytes).unwrap();
-        let tr = types.as_ref();
-        let a = tr.component_at(0); let b = tr.component_at(1);
-        let (ca, cb2) = (&tr[a], &tr[b]);
-        for (n, ea) in ca.exports.iter() {
-            if let Some(eb) = cb2.exports.get(n) {
-                let r1 = wasmparser::component_types::ComponentEntityType::is_subtype_of(ea, tr, eb, tr);
-                let r2 = wasmparser::component_types::ComponentEntityType::is_subtype_of(eb, tr, ea, tr);
-                println!("wasmparser {n}: wit<=wac {r1} wac<=wit {r2}");
+    std::panic::set_hook(Box::new(|info| {
+        let loc = info.location().map(|l| format!("{}:{}", l.file().rsplit('/').next().unwrap_or(""), l.line())).unwrap_or_default();
+        let msg = info.payload().downcast_ref::<&str>().map(|s| s.to_string()).or_else(|| info.payload().downcast_ref::<String>().cloned()).unwrap_or_default();
+        *LAST_PANIC.lock().unwrap() = format!("{loc} {msg}").replace(['\n', '\t'], " ");
+    }));
+    if a.len() >= 3 && a[1] == "show" {
+        let wac = std::fs::read_to_string(&a[2]).unwrap();
+        let wit = if a.len() > 3 { std::fs::read_to_string(&a[3]).unwrap() } else { wac.clone() };
+        let meta = if a.len() > 4 { a[4].clone() } else { String::new() };
+        let (obs, enc, feats) = observe_wac(&wac);
+        println!("features: {feats}");
+        println!("observation: {obs}");
+        if let Some(Ok(b)) = &enc { println!("--- wac encoding\n{}", wasmprinter::print_bytes(b).unwrap_or_default()); } else {
+            println!("wac encode: {enc:?}");
+            // print the invalid encoding for diagnosis
+            let r = catch_unwind(AssertUnwindSafe(|| {
+                let doc = wac_parser::Document::parse(&wac).ok()?; let res = doc.resolve(Default::default()).ok()?;
+                let mut o = wac_graph::EncodeOptions::default(); o.validate = false; res.encode(o).ok()
+            }));
+            if let Ok(Some(b)) = r { println!("--- wac encoding (not validated)\n{}", wasmprinter::print_bytes(&b).unwrap_or_else(|e| format!("unprintable: {e}"))); }
+        }
+        match wit_encode(&wit) { Ok(b) => println!("--- reference encoding\n{}", wasmprinter::print_bytes(&b).unwrap_or_default()), Err(e) => println!("reference: {e}") }
+        println!("{}", evaluate("pkg", &wac, &wit, &meta));
+        return;
+    }
+    if a.len() < 5 { eprintln!("usage: c05 <quick|thorough> <seed> <cases_out> <impl_out> [replay_cases_in]"); std::process::exit(2); }
+    let (tier, seed) = (a[1].as_str(), a[2].parse::<u64>().unwrap_or(1));
+    let mut cases: Vec<String> = Vec::new();
+    if a.len() > 5 {
+        for l in std::fs::read_to_string(&a[5]).unwrap().lines() { if !l.trim().is_empty() { cases.push(l.to_string()); } }
+    } else {
+        let mut r = Rng::new(seed ^ 0xC05);
+        let (n_pkg, n_neg) = if tier == "thorough" { (2000, 400) } else { (150, 40) };
+        for i in 0..n_pkg {
+            // packages that have the shape of a known finding are kept at a fifth of their natural frequency, so that most of the
+            // budget explores elsewhere (the witnesses of the known findings are in the corpus and are replayed on every run)
+            for attempt in 0..12 {
+                let mut g = Gen { r: &mut r, n: 0, feats: BTreeSet::new() };
+                let (p, meta) = g.pkg(6, 3);
+                let wac = render(&p, Lang::Wac);
+                let (_, _, feats) = observe_wac(&wac);
+                if !feats.is_empty() && attempt < 11 && !r.chance(1, 5) { continue; }
+                cases.push(format!("pkg\tg{i}\t{}\t{}\t{}", enc(&wac), enc(&render(&p, Lang::Wit)), meta));
+                break;
             }
         }
+        for (i, s) in negatives(&mut r, n_neg).into_iter().enumerate() { cases.push(format!("neg\tn{i}\t{}\t-\t-", enc(&s))); }
     }
-    for (n, k) in pw.definitions() {
-        match pc.definitions().get(n) {
-            None => println!("{n}: missing in wac"),
-            Some(k2) => {
-                let mut cache = HashSet::new();
-                let mut c = SubtypeChecker::new(&mut cache);
-                let r1 = c.is_subtype(*k, &types, *k2, &types);
-                let mut cache = HashSet::new();
-                let mut c = SubtypeChecker::new(&mut cache);
-                let r2 = c.is_subtype(*k2, &types, *k, &types);
-                println!("{n}: wit<=wac {:?}  wac<=wit {:?}", r1.map_err(|e| format!("{e:#}")), r2.map_err(|e| format!("{e:#}")));
-            }
-        }
+    let mut fc = std::io::BufWriter::new(std::fs::File::create(&a[3]).unwrap());
+    let mut fi = std::io::BufWriter::new(std::fs::File::create(&a[4]).unwrap());
+    for c in &cases {
+        let f: Vec<&str> = c.split('\t').collect();
+        let out = if f.len() < 5 { "BAD-LINE\t-\t-\t-".to_string() } else { evaluate(f[0], &dec(f[2]), &dec(f[3]), f[4]) };
+        writeln!(fc, "{c}").unwrap();
+        writeln!(fi, "{out}").unwrap();
     }
+    let _ = BTreeMap::<u8, u8>::new();
 }
